@@ -8,6 +8,18 @@ package props
 // contract manager of an hx.Node; the state every call reads and (when it succeeds) commits to is one
 // in-memory MemXModel per sequence. After every step all stored balance records are read back and
 // compared with what the statement allows for that step.
+//
+// What the oracle deliberately does NOT assert (the statement is silent about it):
+//   - that an unlock happens at all: CheckVoteResult / Trigger scan ["lock_<id>_", "lock_<id>_`") and so
+//     never release lockers whose address starts with a lower-case letter (a0 here); a released proposal
+//     may unlock any subset of what its lockers locked for it (label tick-release-skipped-a-locker);
+//   - how much Propose locks (any increase is accepted and remembered), that malformed / negative
+//     amounts are refused (only canonical decimal amounts are judged by the transfer rule), per-account
+//     debit / credit amounts (only the sum), or that a lock cannot exceed the balance.
+//
+// Scope left out: the real tdpos kernel methods (they keep their nominate / vote tables in ledger
+// snapshots of confirmed blocks and check the tip height, so they cannot run over the in-memory
+// state); the tdpos lock type is reached through a forwarder registered under "$tdpos" instead.
 
 import (
 	"bytes"
@@ -26,6 +38,7 @@ import (
 	"pgregory.net/rapid"
 
 	"github.com/xuperchain/xupercore/kernel/contract"
+	putils "github.com/xuperchain/xupercore/kernel/contract/proposal/utils"
 	"github.com/xuperchain/xupercore/kernel/contract/sandbox"
 	"github.com/xuperchain/xupercore/kernel/ledger"
 	"github.com/xuperchain/xupercore/protos"
@@ -577,11 +590,17 @@ func (m *c19Machine) apply(op c19Op) error {
 		}
 	}
 
+	// ---- direct external Lock / UnLock must be refused
+	if (op.Op == "lock" || op.Op == "unlock") && ok {
+		return c19Violf("external-lock", "%s: external call of $govern_token.%s was accepted", desc, op.Op)
+	}
+
 	// ---- (2) locked amounts change only through the lock / unlock this step executed
 	// allowed[addr][type] = set of permitted deltas (nil = must not change)
 	type key struct{ a, t string }
 	allowed := map[key][]*big.Int{}
 	anyNonNeg := map[key]bool{}
+	upTo := map[key]*big.Int{} // unlock of anything in [0, upTo]
 	switch {
 	case !ok:
 	case op.Op == "propose":
@@ -616,10 +635,10 @@ func (m *c19Machine) apply(op c19Op) error {
 			p.Status = st
 			// CheckVoteResult on a voting proposal that ends rejected, and Trigger on a passed one,
 			// unlock what was locked for the proposal.
-			if (was == "voting" && st == "rejected") || (was == "passed" && (st == "completed_success" || st == "completed_failure")) {
+			if (was == putils.ProposalStatusVoting && st == putils.ProposalStatusRejected) || (was == putils.ProposalStatusPassed && (st == putils.ProposalStatusCompletedAndSuccess || st == putils.ProposalStatusCompletedAndFailure)) {
 				released = append(released, p)
 			}
-			if was == "voting" && st == "passed" {
+			if was == putils.ProposalStatusVoting && st == putils.ProposalStatusPassed {
 				m.label("proposal-passed")
 			}
 		}
@@ -634,6 +653,15 @@ func (m *c19Machine) apply(op c19Op) error {
 		}
 		for _, a := range accts {
 			if len(cands[a]) == 0 {
+				continue
+			}
+			if len(cands[a]) > 10 {
+				// too many to enumerate: accept anything between "all released" and "none released"
+				tot := new(big.Int)
+				for _, c := range cands[a] {
+					tot.Add(tot, c)
+				}
+				upTo[key{a, c19Ordinary}] = tot
 				continue
 			}
 			sums := []*big.Int{new(big.Int)}
@@ -658,6 +686,11 @@ func (m *c19Machine) apply(op c19Op) error {
 				if d.Sign() < 0 {
 					return c19Violf("locks", "%s: lock operation lowered locked[%s] of %s by %s", desc, t, c19Name(a), new(big.Int).Neg(d))
 				}
+			case upTo[k] != nil:
+				if d.Sign() > 0 || new(big.Int).Neg(d).Cmp(upTo[k]) > 0 {
+					return c19Violf("locks", "%s: locked[%s] of %s changed %s -> %s; the unlocks executed by this step release at most %s",
+						desc, t, c19Name(a), pre[a].locked(t), post[a].locked(t), upTo[k])
+				}
 			case allowed[k] != nil:
 				if op.Op == "tick" && d.Sign() == 0 && allowed[k][len(allowed[k])-1].Sign() != 0 {
 					// a released proposal left this locker locked: not an unlock the statement demands
@@ -680,11 +713,6 @@ func (m *c19Machine) apply(op c19Op) error {
 				}
 			}
 		}
-	}
-
-	// ---- direct external Lock / UnLock must be refused
-	if (op.Op == "lock" || op.Op == "unlock") && ok {
-		return c19Violf("external-lock", "%s: external call of $govern_token.%s was accepted", desc, op.Op)
 	}
 
 	// ---- (3) a transfer succeeds only if it leaves the sender at or above each of its locked amounts
@@ -758,7 +786,7 @@ func (m *c19Machine) apply(op c19Op) error {
 			if d == nil {
 				d = new(big.Int)
 			}
-			p := &c19Prop{ID: id, Proposer: by, Stop: op.Stop, Trig: op.Trig, Pct: op.Pct, Status: "voting",
+			p := &c19Prop{ID: id, Proposer: by, Stop: op.Stop, Trig: op.Trig, Pct: op.Pct, Status: putils.ProposalStatusVoting,
 				Votes: new(big.Int), Lockers: []string{by}, Locks: map[string]*big.Int{by: new(big.Int).Set(d)}}
 			if m.findProp(id) == nil {
 				m.props = append(m.props, p)
@@ -788,7 +816,7 @@ func (m *c19Machine) apply(op c19Op) error {
 			}
 		case "thaw":
 			if p := m.findProp(op.Prop); p != nil {
-				p.Status = "cancelled"
+				p.Status = putils.ProposalStatusCancelled
 				delete(p.Locks, by)
 				// the other lockers of a cancelled proposal can never be released any more
 				p.Done = true
@@ -798,7 +826,7 @@ func (m *c19Machine) apply(op c19Op) error {
 			for _, p := range released {
 				p.Done = true
 				p.Locks = map[string]*big.Int{}
-				if p.Status == "rejected" {
+				if p.Status == putils.ProposalStatusRejected {
 					m.label("tick-rejected-unlocks")
 				} else {
 					m.label("tick-trigger-unlocks")
@@ -873,7 +901,7 @@ func c19Name(addr string) string {
 
 func c19Describe(op c19Op, ok bool) string {
 	b, _ := json.Marshal(op)
-	res := "rejected"
+	res := "refused"
 	if ok {
 		res = "accepted"
 	}
@@ -985,7 +1013,7 @@ func genC19Op(rt *rapid.T, m *c19Machine) c19Op {
 	// a proposal somebody has started voting on: keep voting with whoever can add most, so that
 	// proposals also pass (and are triggered) instead of always being rejected
 	for _, p := range m.props {
-		if p.Status != "voting" || p.Done || p.Votes.Sign() == 0 || p.Stop <= m.height {
+		if p.Status != putils.ProposalStatusVoting || p.Done || p.Votes.Sign() == 0 || p.Stop <= m.height {
 			continue
 		}
 		need := c19Need(supply, p)
@@ -1045,7 +1073,7 @@ func genC19Op(rt *rapid.T, m *c19Machine) c19Op {
 	case kind < 50: // vote
 		by := c19PickBy(rt, m, func(b *c19Bal) bool { return c19AvailOrd(b).Sign() > 0 }, 8)
 		b := m.bal[c19Addr(by)]
-		prop, p := c19PickProp(rt, m, func(p *c19Prop) bool { return p.Status == "voting" && !p.Done })
+		prop, p := c19PickProp(rt, m, func(p *c19Prop) bool { return p.Status == putils.ProposalStatusVoting && !p.Done })
 		av := c19AvailOrd(b)
 		var cands []string
 		if p != nil {
@@ -1071,7 +1099,9 @@ func genC19Op(rt *rapid.T, m *c19Machine) c19Op {
 		target := c19Pick(rt, "target", []string{"supply", "supply", "lock", "init", "verif"})
 		return c19Op{Op: "propose", By: by, Stop: stop, Trig: trig, Pct: pct, Target: target}
 	case kind < 70: // thaw
-		prop, p := c19PickProp(rt, m, func(p *c19Prop) bool { return p.Status == "voting" && !p.Done && p.Votes.Sign() == 0 })
+		prop, p := c19PickProp(rt, m, func(p *c19Prop) bool {
+			return p.Status == putils.ProposalStatusVoting && !p.Done && p.Votes.Sign() == 0
+		})
 		by := c19Pick(rt, "by", c19Names)
 		if p != nil && rapid.IntRange(0, 3).Draw(rt, "asproposer") < 3 {
 			by = c19Name(p.Proposer)
@@ -1200,7 +1230,7 @@ func TestC19(t *testing.T) {
 		}
 	}
 
-	c.Check(t, c19Sub, hx.N(8000, 200000), func(cs *hx.Case) {
+	c.Check(t, c19Sub, hx.N(20000, 300000), func(cs *hx.Case) {
 		rt := cs.RT()
 		m, err := newC19Machine()
 		if err != nil {
